@@ -435,6 +435,13 @@ def r1c_key_format(rep, facts):
                 how = f"entry({a.get('k')} {a.get('name') or ''})"
                 if a.get('k') == 'mcall' and a.get('name') == 'clone' and peel(a['recv']).get('path') in pn:
                     ok = True
+                else:
+                    # through a helper / intermediate binding: the entry key originates in `<key param>.clone()`
+                    from .shared import local_origins, method_chain
+                    root, ms = method_chain(n['args'][0], local_origins(b['body']))
+                    if root in pn and ms[-1:] == ['clone']:
+                        ok = True
+                        how = 'entry(<key>.clone()) through a binding'
         rep.check(R, d, ok, 'items.entry(key.clone())', f'`{d}` inserts with {how}: the source spelling and decor of dotted-key segments are dropped', facts.loc(b))
     # the parser reaches them for non-leaf segments
     for d in (P + 'state::ParseState::descend_path', P + 'inline_table::descend_path'):
